@@ -603,7 +603,7 @@ fn big_group(cx: &mut Ctx, streams: bool, r: &mut u64) -> String {
     let total: usize = if wave { live + 50 } else { 66_000 + (xs(r) % 6_000) as usize };
     let later = xs(r) % 2 == 0;
     let cap0 = [0usize, 1, 300][(xs(r) % 3) as usize];
-    let what = format!("{}::with_capacity({cap0}): {total} inserts, {live} members live at a time{}{}, {}", if with_removal { ", 70 % removed before the first poll" } else if mostly_empty { ", 15 of 16 members are empty streams" } else { "" }, if all_pend { ", every member pends first" } else { "" }, if streams { "StreamGroup" } else { "FutureGroup" }, if later { "wake-later" } else { "self-wake" });
+    let what = format!("{}::with_capacity({cap0}): {total} inserts, {live} members live at a time{}{}, {}", if streams { "StreamGroup" } else { "FutureGroup" }, if with_removal { ", 70 % removed before the first poll" } else if mostly_empty { ", 15 of 16 members are empty streams" } else { "" }, if all_pend { ", every member pends first" } else { "" }, if later { "wake-later" } else { "self-wake" });
     reset_counters(0);
     let per_item = 2u32;
     let mut got: Vec<(u32, u32)> = vec![];
